@@ -298,6 +298,18 @@ Section Loop.
                end
       end.
 
+    (* both at once (what the wire unit runs; = (btrace, bloop): Proofs/BipropLoop_proofs.v bloop_trace_spec) *)
+    Fixpoint bloop_trace (fuel : nat) (s : bstate) : list bstate * bp_result :=
+      match fuel with
+      | O => ([], BP_out_of_fuel)
+      | S f =>
+          match bstep s with
+          | Done => ([s], BP_ok (b_res s) (b_rho s) (b_gamma s))
+          | Next s' => let (t, r) := bloop_trace f s' in (s :: t, r)
+          | Stop r => ([s], r)
+          end
+      end.
+
     Definition binit (n : Z) : bp_result + bstate :=
       match initial_solution votes n with
       | Init_ok sol _ => inr (mk_bstate sol (initial_district_coefs votes) (initial_party_coefs votes sol))
@@ -313,6 +325,12 @@ Section Loop.
       end.
   End Iter.
 
+  Definition run_core (votes : mat) (tgt : list (C * Z)) (dorder : list C) (n : Z) (fuel : nat) : list bstate * bp_result :=
+    match binit votes n with
+    | inr s => bloop_trace votes tgt dorder fuel s
+    | inl e => ([], e)
+    end.
+
   (* seats given as a total and no apportioner: the districts are apportioned by the same
      HighestAverages evaluator on the district totals (core.apportion) *)
   Definition evaluate_total (votes : mat) (n : Z) (dorder : list C) (fuel : nat) : bp_result :=
@@ -323,6 +341,16 @@ Section Loop.
         | HA_value_error => BP_value_error
         | HA_ok _ (Some _) => BP_district_tie
         | HA_ok tgt None => evaluate_core votes tgt dorder n fuel
+        end
+    end.
+  Definition run_total (votes : mat) (n : Z) (dorder : list C) (fuel : nat) : list bstate * bp_result :=
+    match binit votes n with
+    | inl e => ([], e)
+    | inr s =>
+        match HighestAverages.evaluate d (district_totals votes) n [] [] with
+        | HA_value_error => ([], BP_value_error)
+        | HA_ok _ (Some _) => ([], BP_district_tie)
+        | HA_ok tgt None => bloop_trace votes tgt dorder fuel s
         end
     end.
 End Loop.
